@@ -12,6 +12,7 @@ R5 handle numbers come from the single counter
 R6 lookup references (which pin inode objects and their descriptors) are returned or given back on every path (C08.R1/R2)
 R3 (cont.) directory-position records are stored only under the runtime opendir mode; InodeMap/InodeStore clear empty every map
 R6 (cont.) give-back on entry.inode (C08.R1)
+R3 (cont.) every caller of HandleMap::get passes (handle, inode); do_release is called with (inode, handle); Vfs::destroy reaches every backend
 """
 from pyfbr import core, vf
 from rules import common
